@@ -62,7 +62,7 @@ class G:
     def node(self):
         r = self.rnd
         k = r.choice(['word'] * 6 + ['fl', 'fl', 'ol', 'sel', 'unk', 'foot', 'same', 'decl', 'item', 'head',
-                                     'sel_in']) if self.depth < 3 else 'word'
+                                     'sel_in', 'optend']) if self.depth < 3 else 'word'
         if k == 'sel' and (self.depth > 0 or self.infoot):
             k = 'word'
         if k in ('foot', 'head') and (self.infoot or self.depth > 1):
@@ -78,6 +78,19 @@ class G:
             self.seq(r.randint(1, 5))
             self.stack.pop()
             self.w('}')
+        elif k == 'optend':
+            # a macro / environment with an absent trailing optional argument ends a foreign-language argument
+            lang = self.other()
+            self.w('\\foreignlanguage{%s}{' % lang)
+            self.stack.append(LMAP[lang])
+            self.word()
+            self.w(r.choice([' \\footnotemark', ' \\yopt', '\\footnotemark', ' \\vspace*{1ex}\\footnotemark']))
+            self.stack.pop()
+            self.w('}')
+            self.w(' ')
+            self.word()
+            self.w(' ')
+            self.word()
         elif k == 'same':
             # nested command for the language already in force
             cur = next(x for x in LMAP if LMAP[x] == self.stack[-1]) if self.stack[-1] in LMAP.values() else None
@@ -229,6 +242,7 @@ class C12(core.Check):
             g.stack[-1] = LMAP[lang]
         else:
             g.w('\\usepackage{babel}\n')
+        g.w('\\newcommand{\\yopt}[1][yoptd]{}\n')
         g.seq(rnd.randint(1, 6))
         for _ in range(rnd.randint(0, 2)):
             g.probe()
@@ -297,7 +311,7 @@ class C12(core.Check):
 
     def quotas(self, tier):
         q = {'docs_multi': 3000, 'probes_joined': 300, 'probes_split': 300}
-        for k in ('fl', 'ol', 'sel', 'same', 'sel_in', 'foot', 'head', 'decl'):
+        for k in ('fl', 'ol', 'sel', 'same', 'sel_in', 'foot', 'head', 'decl', 'optend'):
             q['kind_' + k] = 200
         return q
 
